@@ -11,20 +11,28 @@ from ..report import AnalysisError, VERIF
 from ..srcmodel import Source, is_self_attr, local_aliases, unparse
 
 EXPLANATION = (
-    "Typestate/pairing analysis of every context-manager class of the package: each state change found in "
-    "__enter__ (tty attributes, file status flags, SIGINT handler, signal wake-up fd, pipe descriptors, cursor "
-    "visibility, delegated contexts) generates the obligation to find, on every path of the matching __exit__ "
-    "whose branch conditions are consistent with the guard of the change, a restore of the same resource with the "
-    "value saved before the change (M1 save dominates change, M2 restore on all relevant paths, M3 restored value "
-    "is the saved attribute, written only in __enter__, same stream); guard attributes are only written in __init__ "
-    "(M4); the raw state-changing primitives are called nowhere else in the package (M5); state-changing context "
-    "managers are only used through `with` or paired delegation (M6); no yield inside such a `with` (M7); nothing "
-    "touches screen content outside the alternate screen in FullscreenWindow.__enter__/__exit__ (M8); __exit__ "
-    "accepts the exception triple and never branches on it (M9); a cursor hidden inside a render is shown again "
-    "under the same guard on every normal path (M10)."
+    "Interpreted part (sa/rules/c12sem.py): the package's own Nonblocking, Termmode, Cbreak, ReplacedSigIntHandler, Input, "
+    "FullscreenWindow and CursorAwareWindow code is abstractly interpreted against a reference model of the operating-system "
+    "state (tty attributes and file status flags per descriptor, the descriptor table, the SIGINT handler, the signal wake-up "
+    "descriptor, main / non-main thread, scripted select / read) and of the terminal (cursor visibility, alternate screen, "
+    "main-screen content).  Scenarios: X1 enter / exit of every class for every combination of sigint_event, "
+    "disable_terminal_start_stop, hide_cursor, keep_last_line, main / non-main thread, linux / darwin, two initial tty "
+    "attribute sets and three initial flag words, left normally and with an exception triple; X2 crash points: a body of "
+    "five requests (key, timeout, escape sequence, paste, interrupted select) or three renders is run with the k-th OS call "
+    "(resp. terminal write) of the body raising KeyboardInterrupt instead of taking effect, for every k, then the context is "
+    "left by that exception; X3 after every request (completed or interrupted) the input stream's flags are the initial ones; "
+    "X4 three enter / request / exit cycles on one object and on fresh objects leave the descriptor table unchanged (with and "
+    "without threadsafe_event_trigger); X5 an Input nested in a window on the same terminal; X6 after a window is left the "
+    "cursor is visible, the alternate screen has been left and the main screen's content (resp. every line above the window) "
+    "is what it was.  The model state after leaving is compared, component by component, with the state before entering.  "
+    "Structural part: M5 the raw state-changing primitives (tcsetattr, setcbreak/setraw, F_SETFL, signal.signal, "
+    "set_wakeup_fd, os.pipe ...) are called only in __enter__/__exit__ methods of context-manager classes, in helpers reachable "
+    "only from those, or inside a local save / try / finally-restore; M6 state-changing context managers are constructed only as "
+    "`with` items, by paired delegation or returned to the caller; M7 no yield inside such a `with`."
 )
-NOT_DECIDED = ("that the OS / blessed calls have the effect their names say; exceptions raised inside __enter__/__exit__ "
-               "themselves; other threads; process-wide descriptor numbers.")
+NOT_DECIDED = ("an exception arriving between two bytecodes of the restoring code itself or between an OS call taking effect and its "
+               "result being stored (inherent to CPython signal delivery; crash points are whole OS calls / terminal writes); other "
+               "threads; bodies other than the catalogue's requests and renders; that the OS and blessed do what the models say.")
 
 # canonical name -> (kind, role)
 TTY_SET = {"tty.setcbreak", "tty.setraw"}
@@ -97,60 +105,6 @@ def classify_call(src, func, call, aliases):
     return None
 
 
-def effects_with_guards(src, func):
-    """Effects of a function body in source order with the lexical guard (conjunct list) of each."""
-    aliases = local_aliases(src, func)
-    out = []
-
-    def visit(stmts, guard):
-        for st in stmts:
-            if isinstance(st, ast.If):
-                scan_expr(st.test, guard)
-                visit(st.body, guard + conjuncts(st.test))
-                neg = conjuncts(st.test)
-                if len(neg) == 1:
-                    visit(st.orelse, guard + [(neg[0][0], not neg[0][1])])
-                else:
-                    visit(st.orelse, guard + [("not (%s)" % unparse(st.test), True)])
-            elif isinstance(st, (ast.For, ast.AsyncFor, ast.While)):
-                scan_expr(st.iter if not isinstance(st, ast.While) else st.test, guard)
-                visit(st.body, guard + [("<loop %s>" % unparse(st).split("\n")[0], True)])
-                visit(st.orelse, guard)
-            elif isinstance(st, (ast.With, ast.AsyncWith)):
-                for i in st.items:
-                    scan_expr(i.context_expr, guard)
-                visit(st.body, guard)
-            elif isinstance(st, ast.Try):
-                visit(st.body, guard)
-                visit(st.orelse, guard)
-                for h in st.handlers:
-                    visit(h.body, guard + [("<except %s>" % unparse(h.type), True)])
-                visit(st.finalbody, guard)
-            elif isinstance(st, (ast.FunctionDef, ast.AsyncFunctionDef, ast.ClassDef)):
-                continue
-            else:
-                scan_expr(st, guard)
-
-    def scan_expr(root, guard):
-        calls = []
-        stack = [root]
-        while stack:
-            n = stack.pop()
-            if isinstance(n, (ast.Lambda, ast.FunctionDef, ast.AsyncFunctionDef, ast.ClassDef)):
-                continue
-            if isinstance(n, ast.Call):
-                calls.append(n)
-            stack.extend(ast.iter_child_nodes(n))
-        calls.sort(key=lambda c: (c.lineno, c.col_offset))
-        for c in calls:
-            e = classify_call(src, func, c, aliases)
-            if e is not None:
-                e.guard = list(guard)
-                out.append(e)
-    visit(func.node.body, [])
-    return out
-
-
 def cm_classes(src):
     """[(module, ClassDef, enter Func|None, exit Func|None)] for every class that has __enter__/__exit__ via its MRO."""
     out = []
@@ -162,62 +116,6 @@ def cm_classes(src):
         own = src.has_func(m, cname + ".__enter__") or src.has_func(m, cname + ".__exit__")
         if own and (en or ex):
             out.append((m, c, en, ex))
-    return out
-
-
-def _path_relevant(path, change_guard, exempt_attrs):
-    """Is a path of __exit__ consistent with the guard under which the change was made in __enter__?"""
-    G = set(change_guard)
-    for test, val in path.conds():
-        cj = conjuncts(test)
-        if val:
-            for (t, pol) in cj:
-                if (t, not pol) in G:
-                    return False
-        else:
-            unknown = [(t, pol) for (t, pol) in cj if (t, pol) not in G]
-            if not unknown:
-                return False   # every conjunct is known true under the change guard: false edge infeasible
-            if all(_is_exempt(t, pol, exempt_attrs) for (t, pol) in unknown):
-                return False   # only skipped when the saved value is None (nothing to restore)
-    return True
-
-
-def _is_exempt(text, pol, exempt_attrs):
-    for a in exempt_attrs:
-        if (text, pol) == G("%s is not None" % a):
-            return True
-    return False
-
-
-def _path_effects(src, func, path, aliases):
-    """Effects along one enumerated path, in order; effects inside opaque inner loops are included."""
-    out = []
-    for ev in path.events:
-        roots = []
-        if ev[0] == "stmt":
-            roots = [ev[1]]
-        elif ev[0] == "loop":
-            roots = [ev[1]]
-        elif ev[0] == "with":
-            roots = [i.context_expr for i in ev[1].items]
-        elif ev[0] == "cond":
-            roots = [ev[1]]
-        for r in roots:
-            calls = []
-            stack = [r]
-            while stack:
-                n = stack.pop()
-                if isinstance(n, (ast.Lambda, ast.FunctionDef, ast.AsyncFunctionDef, ast.ClassDef)):
-                    continue
-                if isinstance(n, ast.Call):
-                    calls.append(n)
-                stack.extend(ast.iter_child_nodes(n))
-            calls.sort(key=lambda c: (c.lineno, c.col_offset))
-            for c in calls:
-                e = classify_call(src, func, c, aliases)
-                if e is not None:
-                    out.append(e)
     return out
 
 
@@ -244,324 +142,8 @@ def writers_of_attr(src, module, clsname, attr):
     return out
 
 
-def _self_attr_name(text):
-    return text[5:] if text and text.startswith("self.") and text[5:].isidentifier() else None
-
-
-def check_class(src, rep, m, c, en, ex, counts):
-    cname = c.name
-    scope = "%s:%s" % (m, cname)
-    if en is None or ex is None:
-        missing = "__exit__" if ex is None else "__enter__"
-        rep.ob("M2-exit-exists", src.modules[m].where(c), scope, "class %s" % cname, False,
-               "context manager class defines only one of __enter__/__exit__ (%s missing)" % missing)
-        return
-    en_eff = effects_with_guards(src, en)
-    ex_eff = effects_with_guards(src, ex)
-    ex_aliases = local_aliases(src, ex)
-    try:
-        ex_paths = [p for p in enumerate_paths(ex.node.body) if p.feasible()]
-    except AnalysisError as e:
-        raise AnalysisError("%s.__exit__: %s" % (cname, e))
-    cfg = CFG(en.node)
-
-    saves = [e for e in en_eff if e.role == "save" or (e.role == "set" and e.saved_to and e.kind != "tty")]
-    # ---------------- changes -> obligations
-    changes = []
-    for e in en_eff:
-        if e.kind in ("tty", "fl") and e.role in ("set",):
-            changes.append(e)
-        elif e.kind.startswith("sig:") and e.role == "set":
-            changes.append(e)
-        elif e.kind == "wakeup" and e.role == "set":
-            changes.append(e)
-        elif e.kind == "fd" and e.role == "open":
-            changes.append(e)
-        elif e.kind == "cursor" and e.role == "hide":
-            changes.append(e)
-        elif e.kind == "ctx" and e.role == "enter":
-            changes.append(e)
-        elif e.kind == "fl" and e.role == "set_blocking":
-            # allowed only on a descriptor the class itself just opened (M5 checks ownership)
-            pass
-    counts["changes"] += len(changes)
-    counts["classes"] += 1
-
-    for ch in changes:
-        kind = ch.kind
-        where = en.where(ch.node)
-        ctext = unparse(ch.node)
-        # ---- M1: the save dominates the change
-        saved_attr = None
-        if kind in ("tty", "fl"):
-            cands = [s for s in en_eff if s.kind == kind and s.role == "save" and s.res == ch.res and
-                     s.saved_to and s.saved_to.startswith("self.")]
-            ch_node = cfg.node_containing(ch.node)
-            dom = [s for s in cands if ch_node is not None and cfg.node_containing(s.node) is not None and
-                   cfg.dominates(cfg.node_containing(s.node), ch_node) and
-                   (s.node.lineno, s.node.col_offset) < (ch.node.lineno, ch.node.col_offset)]
-            # the first dominating save is the "before entering" value
-            ok = bool(dom)
-            rep.ob("M1-save-before-change", where, en.scope, ctext, ok,
-                   "no %s(%s) stored on self dominates this change: the state before entering is not saved"
-                   % ("termios.tcgetattr" if kind == "tty" else "fcntl F_GETFL", ch.res))
-            if not ok:
-                continue
-            first = sorted(dom, key=lambda s: (s.node.lineno, s.node.col_offset))[0]
-            saved_attr = first.saved_to
-            # the saved value must be taken before ANY change of this resource in __enter__
-            earlier_changes = [o for o in changes if o.kind == kind and o.res == ch.res and
-                               (o.node.lineno, o.node.col_offset) < (first.node.lineno, first.node.col_offset)]
-            rep.ob("M1-save-is-first", en.where(first.node), en.scope, unparse(first.node), not earlier_changes,
-                   "the value saved for restoring is read after the state was already changed by `%s`"
-                   % (unparse(earlier_changes[0].node) if earlier_changes else ""))
-        elif kind.startswith("sig:") or kind == "wakeup":
-            if ch.saved_to and ch.saved_to.startswith("self."):
-                saved_attr = ch.saved_to
-            else:
-                cands = [s for s in en_eff if s.kind == kind and s.role == "save" and s.saved_to and
-                         s.saved_to.startswith("self.")]
-                ch_node = cfg.node_containing(ch.node)
-                dom = [s for s in cands if cfg.node_containing(s.node) is not None and ch_node is not None and
-                       cfg.dominates(cfg.node_containing(s.node), ch_node)]
-                if dom:
-                    saved_attr = dom[0].saved_to
-            what = "signal handler" if kind.startswith("sig:") else "signal wake-up descriptor"
-            if not rep.ob("M1-save-before-change", where, en.scope, ctext, saved_attr is not None,
-                          "the previous %s is not kept on self (neither the return value of this call nor a dominating "
-                          "query): it cannot be put back on exit" % what):
-                # still look for *a* restore so the report says what exit does
-                saved_attr = None
-        elif kind == "fd":
-            fds = [t for t in (ch.extra or []) if t.startswith("self.")]
-            if not rep.ob("M3-fd-owned", where, en.scope, ctext, len(fds) == len(ch.extra or []) and fds,
-                          "descriptors opened on entering are not kept on self, so __exit__ cannot close them"):
-                continue
-        # ---- M2/M3: restore on every relevant path of __exit__
-        exempt = []
-        if saved_attr:
-            exempt.append(saved_attr)
-        if kind == "fd":
-            exempt.extend(t for t in ch.extra if t.startswith("self."))
-        relevant = [p for p in ex_paths if _path_relevant(p, ch.guard, exempt)]
-        if not relevant:
-            raise AnalysisError("%s.__exit__ has no path consistent with the guard %r of `%s`" % (cname, ch.guard, ctext))
-        bad_path = None
-        bad_reason = ""
-        for p in relevant:
-            peff = _path_effects(src, ex, p, ex_aliases)
-            if kind in ("tty", "fl"):
-                rs = [r for r in peff if r.kind == kind and r.role == "set" and r.res == ch.res]
-                good = [r for r in rs if r.value == saved_attr]
-                if not good:
-                    bad_path = p
-                    bad_reason = ("no restore of %s(%s) with the saved %s" % (kind, ch.res, saved_attr)) if not rs else \
-                        ("restores %s with `%s`, not with the saved value %s" % (ch.res, rs[-1].value, saved_attr))
-                    break
-                # the LAST write of this resource on the path must be the restore
-                if rs[-1].value != saved_attr:
-                    bad_path = p
-                    bad_reason = "after restoring, %s is changed again by `%s`" % (ch.res, unparse(rs[-1].node))
-                    break
-            elif kind.startswith("sig:") or kind == "wakeup":
-                rs = [r for r in peff if r.kind == kind and r.role == "set"]
-                if saved_attr is None:
-                    if not rs:
-                        bad_path = p
-                        bad_reason = "no restore at all"
-                        break
-                    continue   # already reported under M1
-                good = [r for r in rs if r.value == saved_attr]
-                if not good or rs[-1].value != saved_attr:
-                    bad_path = p
-                    bad_reason = ("no call puts back the saved %s" % saved_attr) if not rs else \
-                        ("puts back `%s` instead of the saved previous value %s" % (rs[-1].value, saved_attr))
-                    break
-            elif kind == "fd":
-                closed = {r.res for r in peff if r.kind == "fd" and r.role == "close"}
-                need = [t for t in ch.extra if t.startswith("self.")]
-                # a close under `if self.x is not None` is accepted: path relevance already handled exemption
-                missing = [t for t in need if t not in closed]
-                if missing:
-                    # the path may have skipped the close because of the exempt None-test of ANOTHER fd
-                    bad_path = p
-                    bad_reason = "descriptor(s) %s opened on entering are not closed" % ", ".join(missing)
-                    break
-            elif kind == "cursor":
-                if not any(r.kind == "cursor" and r.role == "show" for r in peff):
-                    bad_path = p
-                    bad_reason = "the cursor hidden on entering is not made visible again"
-                    break
-            elif kind == "ctx":
-                if not any(r.kind == "ctx" and r.role == "exit" and r.res == ch.res for r in peff):
-                    bad_path = p
-                    bad_reason = "%s.__enter__() has no matching %s.__exit__(...)" % (ch.res, ch.res)
-                    break
-        rule = "M2-restore-on-all-paths" if kind not in ("fd",) else "M2-fd-closed"
-        rep.ob(rule, where, scope, "%s [%s]" % (ctext, kind), bad_path is None,
-               "%s.__exit__: %s on the path [%s] although the change is made under guard %s"
-               % (cname, bad_reason, _show_path(bad_path) if bad_path else "", _show_guard(ch.guard)),
-               witness={"exit_path": _show_path(bad_path), "change_guard": _show_guard(ch.guard)} if bad_path else None)
-        # ---- M3: who may write the saved attribute
-        if saved_attr:
-            an = _self_attr_name(saved_attr)
-            if an:
-                ws = writers_of_attr(src, m, cname, an)
-                bad = [(f, n) for f, n in ws if not (f.qualname.split(".")[-1] == "__enter__")]
-                # same attribute name may legitimately be saved by several classes' __enter__
-                rep.ob("M3-saved-attr-written-only-on-enter", en.where(ch.node), scope, "%s [%s]" % (saved_attr, kind),
-                       not bad, "the saved value %s is overwritten outside __enter__ at %s"
-                       % (saved_attr, ", ".join("%s (%s)" % (f.where(n), f.qualname) for f, n in bad)))
-        # ---- M4: guard stability
-        for (t, pol) in ch.guard:
-            for node in ast.walk(ast.parse(t, mode="eval")) if not t.startswith("<") else []:
-                if is_self_attr(node):
-                    ws = writers_of_attr(src, m, cname, node.attr)
-                    bad = [(f, n) for f, n in ws if f.qualname.split(".")[-1] != "__init__"]
-                    rep.ob("M4-guard-attr-stable", en.where(ch.node), scope, "self.%s guards `%s`" % (node.attr, ctext),
-                           not bad, "guard attribute self.%s is reassigned after construction at %s, so __exit__ may "
-                           "take a different branch than __enter__ did"
-                           % (node.attr, ", ".join("%s (%s)" % (f.where(n), f.qualname) for f, n in bad)))
-
-    # ---- M3b: the saved value must stay what it was: no store through it, or through a (shallow) copy of it into
-    # a nested element (termios attribute lists hold the control-character list as a nested mutable list)
-    saved_names = {e.saved_to for e in en_eff if e.saved_to and e.saved_to.startswith("self.")}
-    for f in (en, ex):
-        al = {}     # local -> ('same' | 'shallow', saved attr)
-        for n in sorted((x for x in f.own_nodes() if isinstance(x, ast.Assign) and len(x.targets) == 1 and isinstance(x.targets[0], ast.Name)),
-                        key=lambda x: x.lineno):
-            v = n.value
-            t = unparse(v)
-            if t in saved_names:
-                al[n.targets[0].id] = ("same", t)
-            elif isinstance(v, ast.Call) and unparse(v.func) in ("list", "copy.copy", "copy") and v.args and unparse(v.args[0]) in saved_names:
-                al[n.targets[0].id] = ("shallow", unparse(v.args[0]))
-            elif isinstance(v, ast.Subscript) and isinstance(v.slice, ast.Slice) and unparse(v.value) in saved_names:
-                al[n.targets[0].id] = ("shallow", unparse(v.value))
-            elif isinstance(v, ast.Subscript) and isinstance(v.value, ast.Name) and v.value.id in al:
-                al[n.targets[0].id] = ("same", al[v.value.id][1])     # an element of the saved structure (e.g. the cc list)
-            elif isinstance(v, ast.Call) and unparse(v.func) == "cast" and len(v.args) == 2 and isinstance(v.args[1], ast.Subscript) and \
-                    isinstance(v.args[1].value, ast.Name) and v.args[1].value.id in al:
-                al[n.targets[0].id] = ("same", al[v.args[1].value.id][1])
-        for n in f.own_nodes():
-            tg = n.targets if isinstance(n, ast.Assign) else [n.target] if isinstance(n, ast.AugAssign) else []
-            for t in tg:
-                if not isinstance(t, ast.Subscript):
-                    continue
-                depth = 0
-                base = t
-                while isinstance(base, ast.Subscript):
-                    base = base.value
-                    depth += 1
-                bt = unparse(base)
-                hit = None
-                if bt in saved_names:
-                    hit = bt
-                elif isinstance(base, ast.Name) and base.id in al:
-                    kind, sv = al[base.id]
-                    if kind == "same" or depth >= 2:
-                        hit = sv
-                if hit:
-                    rep.ob("M3-saved-state-not-mutated", f.where(n), f.scope, unparse(n), False,
-                           "this store writes into %s (directly, or through an alias / shallow copy whose nested lists are shared): "
-                           "the value restored on exit is no longer the state found on entering" % hit)
-    # ---- restores in __exit__ that have no change in __enter__ are harmless; but a tty/fl/signal *set* in
-    # __exit__ whose value is not a saved attribute is a state change made on the way out.
-    saved_attrs = {e.saved_to for e in en_eff if e.saved_to}
-    for r in ex_eff:
-        if (r.kind in ("tty", "fl") and r.role == "set") or ((r.kind.startswith("sig:") or r.kind == "wakeup") and r.role == "set"):
-            counts["restores"] += 1
-            ok = r.value in saved_attrs
-            had_change = any(c.kind == r.kind for c in changes)
-            if had_change and not ok:
-                # reported through M2 for the matching change with more context; record here once for the value rule
-                rep.ob("M3-restore-value-is-saved", ex.where(r.node), ex.scope, unparse(r.node), False,
-                       "__exit__ sets %s to `%s`, which is not a value saved in __enter__ (saved: %s)"
-                       % (r.kind, r.value, sorted(saved_attrs) or "nothing"))
-            elif not had_change and not ok:
-                rep.ob("M3-restore-value-is-saved", ex.where(r.node), ex.scope, unparse(r.node), False,
-                       "__exit__ changes %s to `%s` although __enter__ did not change it" % (r.kind, r.value))
-            else:
-                rep.ob("M3-restore-value-is-saved", ex.where(r.node), ex.scope, unparse(r.node), True)
-
-    # ---- M9: __exit__ signature and independence of the exception triple
-    a = ex.node.args
-    npos = len(a.posonlyargs) + len(a.args) - 1
-    accepts = a.vararg is not None or npos >= 3
-    rep.ob("M9-exit-signature", ex.where(), ex.scope, "def __exit__(%s)" % unparse(a), accepts,
-           "__exit__ does not accept (type, value, traceback): leaving a `with` raises TypeError before anything is restored")
-    exc_params = {x.arg for x in (a.posonlyargs + a.args)[1:]} | ({a.vararg.arg} if a.vararg else set())
-    for n in ex.own_nodes():
-        if isinstance(n, (ast.If, ast.While, ast.IfExp)):
-            used = {x.id for x in ast.walk(n.test) if isinstance(x, ast.Name)} & exc_params
-            rep.ob("M9-exit-independent-of-exception", ex.where(n), ex.scope, unparse(n.test), not used,
-                   "__exit__ branches on its exception arguments %s: restoration differs between normal and "
-                   "exceptional exit" % sorted(used))
-    # ---- M8 for the alternate screen
-    _check_altscreen(src, rep, m, c, en, ex, en_eff, ex_eff)
-
-
-def _show_guard(g):
-    return " and ".join(("" if pol else "not ") + t for t, pol in g) or "<unconditional>"
-
-
-def _show_path(p):
-    if p is None:
-        return ""
-    parts = []
-    for ev in p.events:
-        if ev[0] == "cond":
-            parts.append("%s=%s" % (unparse(ev[1]), ev[2]))
-        elif ev[0] == "stmt":
-            parts.append(unparse(ev[1]).split("\n")[0][:70])
-        elif ev[0] in ("loop", "with", "except"):
-            parts.append("<%s>" % ev[0])
-    return " ; ".join(parts) + (" -> %s" % p.term if p.term else "")
-
-
 CONTENT_ATTRS = {"move", "clear_eol", "clear_bol", "clear_eos", "clear", "move_down", "move_up", "move_x", "move_y",
                  "home", "move_left", "move_right"}
-
-
-def _check_altscreen(src, rep, m, c, en, ex, en_eff, ex_eff):
-    """M8: in a class that delegates to a blessed fullscreen() context, content-changing writes in __enter__ come
-    after entering it and in __exit__ before leaving it."""
-    fs_attrs = set()
-    for f in src.methods(m, c.name).values():
-        for n in f.own_nodes():
-            if isinstance(n, ast.Assign) and isinstance(n.value, ast.Call) and isinstance(n.value.func, ast.Attribute) \
-                    and n.value.func.attr == "fullscreen":
-                for t in n.targets:
-                    fs_attrs.add(unparse(t))
-    if not fs_attrs:
-        return
-    for f, role in ((en, "enter"), (ex, "exit")):
-        evs = []
-        for n in sorted((x for x in f.own_nodes() if isinstance(x, ast.Call)), key=lambda x: (x.lineno, x.col_offset)):
-            if isinstance(n.func, ast.Attribute) and n.func.attr in ("__enter__", "__exit__") and \
-                    unparse(n.func.value) in fs_attrs:
-                evs.append(("ALT", n))
-            elif isinstance(n.func, ast.Attribute) and n.func.attr == "write" and n.args:
-                a = n.args[0]
-                inner = a.func if isinstance(a, ast.Call) else a
-                if isinstance(inner, ast.Attribute) and inner.attr in ("hide_cursor", "normal_cursor"):
-                    continue
-                evs.append(("CONTENT", n))
-            elif isinstance(n.func, ast.Attribute) and n.func.attr in ("render_to_terminal", "scroll_down"):
-                evs.append(("CONTENT", n))
-        alt_idx = [i for i, e in enumerate(evs) if e[0] == "ALT"]
-        ok_alt = bool(alt_idx)
-        rep.ob("M8-altscreen-delegated", f.where(), f.scope, "fullscreen context %s in %s" % (sorted(fs_attrs), f.name),
-               ok_alt, "the alternate-screen context is not %sed in %s" % (role, f.name))
-        if not ok_alt:
-            continue
-        for i, e in enumerate(evs):
-            if e[0] != "CONTENT":
-                continue
-            bad = (role == "enter" and i < alt_idx[0]) or (role == "exit" and i > alt_idx[-1])
-            rep.ob("M8-content-inside-altscreen", f.where(e[1]), f.scope, unparse(e[1]), not bad,
-                   "screen content is written %s the alternate screen is %s: the main screen is not left untouched"
-                   % ("before" if role == "enter" else "after", "entered" if role == "enter" else "left"))
 
 
 # --------------------------------------------------------------------------------------
@@ -785,77 +367,78 @@ def check_cm_usage(src, rep, cm_names, counts):
                        "explicit __enter__() outside an __enter__ method has no language-guaranteed __exit__")
 
 
-def check_render_cursor(src, rep, counts):
-    """M10: in every method that is not __enter__/__exit__, a cursor hide is followed on every normal path by a show
-    under the same guard."""
-    n_pairs = 0
-    for f in src.all_funcs():
-        if f.name in ("__enter__", "__exit__"):
-            continue
-        effs = [e for e in effects_with_guards(src, f) if e.kind == "cursor"]
-        hides = [e for e in effs if e.role == "hide"]
-        if not hides:
-            continue
-        paths = [p for p in enumerate_paths(f.node.body) if p.feasible()]
-        aliases = local_aliases(src, f)
-        for h in hides:
-            n_pairs += 1
-            bad = None
-            for p in paths:
-                if p.term == "raise":
-                    continue
-                pe = _path_effects(src, f, p, aliases)
-                idx = [i for i, e in enumerate(pe) if e.node is h.node]
-                if not idx:
-                    continue
-                after = pe[idx[0] + 1:]
-                if not any(e.kind == "cursor" and e.role == "show" for e in after):
-                    bad = p
-                    break
-            rep.ob("M10-render-cursor-paired", f.where(h.node), f.scope, unparse(h.node), bad is None,
-                   "the cursor is hidden under guard [%s] but not shown again on the path [%s]; when the window does "
-                   "not own cursor hiding, __exit__ will not show it either" % (_show_guard(h.guard), _show_path(bad)))
-    counts["render_hide_sites"] = n_pairs
+def cm_helpers(src, cm_funcs):
+    """Functions that are (transitively) called only from __enter__/__exit__ methods of context-manager classes: they are part
+    of the entering / leaving code (a mixin's _save_stty, a helper that edits the control characters ...)."""
+    allowed = {f.scope for f in cm_funcs}
+    calls = {}       # callee simple name -> set of caller scopes
+    for g in src.all_funcs():
+        for n in g.own_nodes():
+            if isinstance(n, ast.Call):
+                nm = n.func.attr if isinstance(n.func, ast.Attribute) else n.func.id if isinstance(n.func, ast.Name) else None
+                if nm:
+                    calls.setdefault(nm, set()).add(g.scope)
+    helpers = set()
+    changed = True
+    while changed:
+        changed = False
+        for g in src.all_funcs():
+            if g.scope in allowed or g.scope in helpers:
+                continue
+            name = g.qualname.split(".")[-1]
+            if name.startswith("__") and name.endswith("__"):
+                continue
+            callers = calls.get(name, set())
+            if callers and all(c in allowed or c in helpers for c in callers):
+                helpers.add(g.scope)
+                changed = True
+    return helpers
 
 
 def run_rules(src, rep):
-    counts = {"classes": 0, "changes": 0, "restores": 0}
+    counts = {"classes": 0}
     cms = cm_classes(src)
     cm_funcs = []
     for m, c, en, ex in cms:
-        own_en = src.funcs.get((m, c.name + ".__enter__"))
-        own_ex = src.funcs.get((m, c.name + ".__exit__"))
-        for f in (own_en, own_ex):
+        counts["classes"] += 1
+        for f in (src.funcs.get((m, c.name + ".__enter__")), src.funcs.get((m, c.name + ".__exit__"))):
             if f is not None:
                 cm_funcs.append(f)
-        check_class(src, rep, m, c, en, ex, counts)
-    check_who_may_call(src, rep, cm_funcs, counts)
+    helpers = cm_helpers(src, cm_funcs)
+
+    class _F:       # helper functions count as entering / leaving code
+        def __init__(self, scope):
+            self.scope = scope
+    check_who_may_call(src, rep, cm_funcs + [_F(s) for s in helpers], counts)
     check_cm_usage(src, rep, {c.name for _, c, _, _ in cms}, counts)
-    check_render_cursor(src, rep, counts)
     return counts, cms
 
 
 def check(src, rep):
+    from . import c12sem
     rep.explanation = EXPLANATION
     rep.not_decided = NOT_DECIDED
     rep.assumptions = [
         "Python semantics: `with` calls __exit__ on every exit of its body (normal, return, exception)",
-        "termios/tty/fcntl/signal/os calls and blessed capabilities have the effect their names say",
-        "is_main_thread() gives the same answer in __enter__ and __exit__ of one context",
+        "the reference OS model (sa/osmodel.py: termios, tty, fcntl, os.pipe/close, signal, select) and terminal model (sa/termmodel.py) "
+        "describe what the calls do",
+        "an exception arrives in place of an OS call or a terminal write of the body (not between two bytecodes of the restoring code itself)",
     ]
+    rep.trusted_base = ["CPython ast", "sa/consteval.py", "sa/absint.py", "sa/objinterp.py", "sa/osmodel.py", "sa/termmodel.py", "sa/winmodel.py"]
+    sem = {}
+    rep.guard(c12sem.run, src, rep, sem)
     counts, cms = run_rules(src, rep)
+    counts.update(sem)
     rep.extracted["context_manager_classes"] = ["%s.%s" % (m, c.name) for m, c, _, _ in cms]
     rep.extracted["counts"] = counts
     rep.floor("context-manager classes", counts["classes"], 8)
-    rep.floor("state changes in __enter__ methods", counts["changes"], 15)
+    rep.floor("interpreted scenarios", counts.get("scenarios", 0), 500)
     rep.floor("state-changing primitive call sites", counts["primitive_sites"], 12)
-    # positive fixtures: the rules must fire on a known-bad synthetic package
+    # positive fixtures: the structural rules must fire on a known-bad synthetic package
     fx = Source(os.path.join(VERIF, "selftest", "fixtures", "c12"))
     from ..report import Report
     frep = Report("C12", "fixture", fx.repo)
     run_rules(fx, frep)
     fired = {o.rule for o in frep.obligations if not o.ok}
-    for rule in ("M1-save-before-change", "M2-restore-on-all-paths", "M2-fd-closed", "M3-restore-value-is-saved",
-                 "M5-who-may-call", "M6-cm-used-through-with", "M9-exit-signature", "M10-render-cursor-paired",
-                 "M4-guard-attr-stable", "M7-no-yield-inside-with", "M6-bare-enter", "M5-fd-paired"):
+    for rule in ("M5-who-may-call", "M6-cm-used-through-with", "M7-no-yield-inside-with", "M6-bare-enter", "M5-fd-paired"):
         rep.fixture(rule, rule in fired)
